@@ -406,6 +406,22 @@ theorem save_load_counterexample :
       .up ⟨⟨.l [" ".toList], true, [], []⟩, [("v".toList, " ".toList)]⟩ := by
   decide +kernel
 
+/-! ### re-reading the file in the running process -/
+
+/-- a node that was assigned (or created) after the last `open_registry` is never re-read: its
+call answers its value and changes nothing -/
+theorem call_fresh_noop {α : Type} (C : Cls α) (B : Str) (s : LSt α) (w : Where) (h : s.isStale w = false) :
+    s.call C B w = (s, s.st.var.valueAt w) := call_fresh_aux C B s w h
+
+/-- re-reading is idempotent on what was saved: a set channel value whose cached text is the text
+the class prints for it answers the same value and leaves the tree and the cache as they were,
+whether or not it is stale -/
+theorem call_reread_same {α : Type} (C : Cls α) (B : Str) (s : LSt α) (c : Str) (v : α)
+    (hnode : findKey c s.st.var.chans = some ⟨v, true⟩)
+    (hcache : cacheGet s.st.cache (childName B c) = some (C.str v)) (hrt : RT C v) :
+    (s.call C B (.chan c)).2 = some v ∧ (s.call C B (.chan c)).1.st = s.st :=
+  call_reread_chan_aux C B s c v hnode hcache hrt
+
 /-! ### names -/
 
 /-- `registry.unescape(registry.escape(n)) == n` for every name component (dots, colons,
